@@ -436,7 +436,11 @@ class NDNApp:
                 _, _, reply = await self.express_interest(
                     name=make_command('rib', 'register', self.face, name=name),
                     lifetime=1000)
-                ret = parse_response(reply)
+                try:
+                    ret = parse_response(reply)
+                except (DecodeError, ValueError, IndexError, TypeError, struct.error):
+                    self.logger.error('Registration for %s failed: undecodable response', Name.to_str(name))
+                    return False
                 if ret['status_code'] != 200:
                     self.logger.error('Registration for %s failed: %s %s',
                                       Name.to_str(name), ret["status_code"], ret["status_text"])
